@@ -2,6 +2,7 @@ package operations
 
 import (
 	"encoding/json"
+	"fmt"
 	"github.com/orda-io/orda/client/pkg/iface"
 	"github.com/orda-io/orda/client/pkg/log"
 	"github.com/orda-io/orda/client/pkg/model"
@@ -71,6 +72,20 @@ func ModelToOperation(op *model.Operation) iface.Operation {
 		}
 	}
 	panic("unsupported type of operation")
+}
+
+// DecodeModelOperation is ModelToOperation for a model.Operation received from outside: an operation that
+// cannot be decoded (undecodable body, unknown type, no ID) is reported as an error instead of a panic.
+func DecodeModelOperation(op *model.Operation) (ret iface.Operation, err error) {
+	defer func() {
+		if r := recover(); r != nil {
+			ret, err = nil, fmt.Errorf("invalid operation %v: %v", op.GetOpType(), r)
+		}
+	}()
+	if op.GetID() == nil {
+		return nil, fmt.Errorf("invalid operation %v: no ID", op.GetOpType())
+	}
+	return ModelToOperation(op), nil
 }
 
 func unmarshalBody(b []byte, c interface{}) interface{} {
